@@ -146,10 +146,11 @@ def method(kind, *names):
 class LoopSpec:
     """Sidecar loop contract, keyed by (function qualname, loop ordinal)."""
 
-    def __init__(self, inv, havoc=None, note=""):
+    def __init__(self, inv, havoc=None, note="", elem=None):
         self.inv = inv          # (interp, frame, i) -> list[(name, z3 formula)] ; i = completed iterations
         self.havoc = havoc      # optional (interp, frame, names) -> None custom havoc
         self.note = note
+        self.elem = elem or {}  # element type of lists that are still empty at loop entry: {"candidates": "str"}
 
 
 class Frame:
@@ -929,6 +930,8 @@ class Interp:
             cur = frame.lookup(nm)
             if cur is None:
                 continue
+            if spec is not None and nm in spec.elem and isinstance(cur, Vec) and cur.imap is None:
+                cur.buf.elem = spec.elem[nm]
             frame.vars[nm] = self.havoc_value(cur, nm)
 
     def havoc_value(self, cur, nm):
